@@ -70,7 +70,11 @@ func (HIST) Generate(seed uint64, tier string) *core.Scenario {
 		case x < 62:
 			b.Ops = append(b.Ops, HistOp{Kind: "dcommit", Br: br})
 		case x < 66:
-			b.Ops = append(b.Ops, HistOp{Kind: "tag", Pick: r.Intn(1000)})
+			tg := HistOp{Kind: "tag", Pick: r.Intn(1000)}
+			if r.Chance(1, 3) {
+				tg.Kind, tg.Val = "retag", r.Intn(1000) // an existing tag is deleted and made again on another commit
+			}
+			b.Ops = append(b.Ops, tg)
 		case x < 69:
 			b.Ops = append(b.Ops, HistOp{Kind: "branch", Pick: r.Intn(1000)})
 		case x < 72:
@@ -281,6 +285,38 @@ func (HIST) Execute(t *testing.T, sc *core.Scenario) *core.Result {
 			if _, err := ss[0].Exec(ctx, fmt.Sprintf("CALL dolt_tag('%s', '%s')", name, c.hash)); err == nil {
 				c.tags = append(c.tags, name)
 				nTags++
+			}
+		case "retag":
+			// the same name, another commit: whoever resolved the name before must not keep the old answer
+			var holders []*hcommit
+			for _, x := range commits {
+				if len(x.tags) > 0 {
+					holders = append(holders, x)
+				}
+			}
+			if len(holders) == 0 {
+				continue
+			}
+			from := holders[op.Val%len(holders)]
+			name := from.tags[op.Val%len(from.tags)]
+			to := commits[op.Pick%len(commits)]
+			if to == from {
+				continue
+			}
+			if _, err := ss[0].Exec(ctx, fmt.Sprintf("CALL dolt_tag('-d', '%s')", name)); err != nil {
+				res.Probe("tag_delete_refused")
+				continue
+			}
+			var keep []string
+			for _, t := range from.tags {
+				if t != name {
+					keep = append(keep, t)
+				}
+			}
+			from.tags = keep
+			if _, err := ss[0].Exec(ctx, fmt.Sprintf("CALL dolt_tag('%s', '%s')", name, to.hash)); err == nil {
+				to.tags = append(to.tags, name)
+				res.Probe("tag_moved")
 			}
 		case "branch":
 			c := commits[op.Pick%len(commits)]
